@@ -39,6 +39,7 @@ def fillRows (clr : UInt16) (width stride : Nat) : (fb : Array UInt16) → (rowO
     | some fb' => fillRows clr width stride fb' (add32 rowOffset stride) h
 
 def fill (c : Cons) (fb : Array UInt16) (x y w h fg bg : Nat) : Option (Array UInt16) :=
+  if c.width = 0 ∨ c.height = 0 then some fb else   -- an empty grid has no cells to fill
   let clr := cellWord c.clearChar fg bg
   let x := clampOrigin x c.width
   let y := clampOrigin y c.height
